@@ -1,4 +1,9 @@
 //! SQL-level semantic drivers (DESIGN.md §7.1).  `vsem exec` is the generic executor used by C01/C02…
+mod c02;
+mod c03;
+mod c48;
+mod semutil;
+
 use serde_json::{Value, json};
 use vcommon::sqlexec::{ExecOpts, run_sql_case};
 use vcommon::util;
@@ -58,6 +63,10 @@ fn main() {
     let a: Vec<String> = std::env::args().collect();
     match a.get(1).map(|s| s.as_str()).unwrap_or("") {
         "exec" => exec_main(),
+        "c03" => c03::main(),
+        "c02" => c02::main(),
+        "c02-keys" => c02::keys_main(),
+        "c48" => c48::main(),
         _ => {
             eprintln!("usage: vsem exec --in cases.ndjson --out results.ndjson [--partitions N] [--batch-rows N] [--set k=v]...");
             std::process::exit(2);
